@@ -356,6 +356,27 @@ def fill_legs(v, acc, thorough=False, timeout=900):
             v.fail("fill-replay", {"why": r["why"]})
 
 
+def corpus_legs(v, acc, timeout=1200):
+    """Legs M and G on the classifier's long-lived state (V2Corpus): every history of <= 3 calls (AddContent on two names, Normalize,
+    Match; texts of <= 2 words over 3) -- ids are stable, a name registered again is replaced, Match changes nothing -- then every
+    history replayed on a real Classifier, dictionary and documents compared after every call."""
+    r = tlc_require_ok(tlc("V2Corpus", "V2Corpus.cfg", timeout=timeout, workers=4), "V2Corpus model check"); acc.add_tlc(r, "V2Corpus.cfg")
+    gen = tlc_require_ok(tlc("V2Corpus", "V2CorpusGen.cfg", timeout=timeout, workers=2), "V2Corpus history generation"); acc.add_tlc(gen, "V2CorpusGen.cfg")
+    out = os.path.join(sub("out"), "corpus.ndjson")
+    if os.path.exists(out):
+        os.remove(out)
+    rc, txt, _ = go_overlay_test("v2", ["common/util_test.go", "v2/corpus_driver_test.go"], "^TestVerifCorpusReplay$", timeout=timeout,
+                                 env={"VERIF_IN": gen.outpath, "VERIF_OUT": out})
+    recs = read_ndjson(out)
+    summ = [r for r in recs if r.get("kind") == "summary"]
+    if vlib.build_failed(txt) or not summ or summ[0]["vectors"] == 0:
+        raise vlib.Inconclusive("corpus history replay driver failed:\n" + txt[-2500:])
+    acc.evaluations += summ[0]["steps"]; acc.traces += summ[0]["vectors"]; acc.extra["corpus_history_replay"] = summ[0]
+    for r in recs:
+        if r.get("kind") == "mismatch":
+            v.fail("corpus-replay", {"why": r["why"], "history": r.get("history")})
+
+
 def tracecfg_legs(v, acc, timeout=600):
     """Legs M and G on the tracing switches (V2Trace): the rule on the spec, then every small configuration through the real
     TraceConfiguration -- answers equal, and asking leaves the (shared) lookup maps as they were."""
